@@ -47,6 +47,19 @@ theorem turn_setOut (c : Consts) (env : Env) (o) (σ) : turn c (env.setOut o) σ
   unfold turn
   simp only [readClock_setOut, doWait_setOut, sweep_setOut, slowPhase_setOut]
 
+theorem lateAll_setOut (env : Env) (o) (is : List Nat) : ∀ σ evs,
+    lateAll (env.setOut o) is σ evs = lateAll env is σ evs := by
+  induction is with
+  | nil => intro σ evs; rfl
+  | cons i is ih => intro σ evs; simp only [lateAll, call_setOut_σ, call_setOut_ev, ih]
+
+theorem lateAll_calls (env : Env) (is : List Nat) : ∀ σ evs,
+    (lateAll env is σ evs).evs.map (fun e => (e.m, e.f)) =
+      evs.map (fun e => (e.m, e.f)) ++ is.map (fun i => (i, Fn.write)) := by
+  induction is with
+  | nil => intro σ evs; simp [lateAll]
+  | cons i is ih => intro σ evs; simp only [lateAll, ih]; simp [call]
+
 theorem run_setOut (c : Consts) (env : Env) (o) (n : Nat) : ∀ σ evs, run c (env.setOut o) n σ evs = run c env n σ evs := by
   induction n with
   | zero => intro σ evs; rfl
@@ -198,6 +211,7 @@ def ValidEvent (st : Statics) (ev : Event) : Prop :=
   | .read p => ValidEntry st (ev.m, p)
   | .doPoll => ∃ s, st[ev.m]? = some s ∧ s.1 = true
   | .init => ev.m < st.length
+  | .write => ev.m < st.length
 
 /-- the invariant: the static part is `st`, and whatever is left in `to_poll` is valid -/
 def EntriesOk (st : Statics) (σ : PollState) : Prop :=
@@ -470,13 +484,32 @@ theorem allEntries_validEntry (σ : PollState) : ∀ e ∈ allEntries 0 σ.mods,
   obtain ⟨m, _, hm, hen, hp⟩ := allEntries_valid σ.mods 0 e he
   exact validEntry_of_mods σ e m (by simpa using hm) hen hp
 
-theorem prologue_ok (c : Consts) (env : Env) (st : Statics) (σ : PollState) (h : EntriesOk st σ) :
-    EntriesOk st (prologue c env σ).σ ∧ ∀ ev ∈ (prologue c env σ).evs, ValidEvent st ev := by
+theorem lateAll_ok (env : Env) (st : Statics) (is : List Nat) (his : ∀ i ∈ is, i < st.length) : ∀ σ evs,
+    statics σ = st → (∀ ev ∈ evs, ValidEvent st ev) →
+    statics (lateAll env is σ evs).σ = st ∧ (lateAll env is σ evs).σ.toPoll = σ.toPoll ∧
+    ∀ ev ∈ (lateAll env is σ evs).evs, ValidEvent st ev := by
+  induction is with
+  | nil => intro σ evs hs he; exact ⟨hs, rfl, he⟩
+  | cons i is ih =>
+    intro σ evs hs he
+    have hev : ∀ ev ∈ evs ++ [(call env σ i .write).ev], ValidEvent st ev := by
+      intro ev h
+      rcases List.mem_append.1 h with h | h
+      · exact he ev h
+      · simp only [List.mem_singleton] at h; subst h
+        exact his i List.mem_cons_self
+    have hs' : statics (call env σ i .write).σ = st := by simp only [call, runCall_statics, noteRead_statics, hs]
+    simp only [lateAll]
+    obtain ⟨a, b, c⟩ := ih (fun j hj => his j (List.mem_cons_of_mem _ hj)) _ _ hs' hev
+    exact ⟨a, by rw [b]; simp [call], c⟩
+
+theorem startupRound_ok (c : Consts) (env : Env) (st : Statics) (σ : PollState) (h : EntriesOk st σ) :
+    EntriesOk st (startupRound c env σ).σ ∧ ∀ ev ∈ (startupRound c env σ).evs, ValidEvent st ev := by
   obtain ⟨hs, ht⟩ := h
   have hlen : σ.mods.length = st.length := by rw [← hs]; simp [statics]
   obtain ⟨a1, b1, c1⟩ := initAll_ok env st (List.range σ.mods.length)
     (fun i hi => by rw [← hlen]; exact List.mem_range.1 hi) σ [] hs (fun ev h => by cases h)
-  unfold prologue
+  unfold startupRound
   simp only
   split
   · refine ⟨⟨by rw [waitEvent_statics, a1], ?_⟩, c1⟩
@@ -488,6 +521,15 @@ theorem prologue_ok (c : Consts) (env : Env) (st : Statics) (σ : PollState) (h 
       intro l hl; rw [waitEvent_toPoll, b2, b1] at hl; exact ht l hl
     · refine ⟨⟨a2, ?_⟩, c2⟩
       intro l hl; rw [b2, b1] at hl; exact ht l hl
+
+theorem prologue_ok (c : Consts) (env : Env) (st : Statics) (σ : PollState) (h : EntriesOk st σ) :
+    EntriesOk st (prologue c env σ).σ ∧ ∀ ev ∈ (prologue c env σ).evs, ValidEvent st ev := by
+  obtain ⟨⟨hs, ht⟩, he⟩ := startupRound_ok c env st σ h
+  have hlen : (startupRound c env σ).σ.mods.length = st.length := by rw [← hs]; simp [statics]
+  obtain ⟨a, b, d⟩ := lateAll_ok env st (List.range (startupRound c env σ).σ.mods.length)
+    (fun i hi => by rw [← hlen]; exact List.mem_range.1 hi) _ _ hs he
+  unfold prologue
+  exact ⟨⟨a, fun l hl => ht l (by rw [← b]; exact hl)⟩, d⟩
 
 theorem thread_ok (c : Consts) (env : Env) (n : Nat) (σ : PollState) (h : σ.toPoll = none) :
     ∀ ev ∈ (thread c env n σ).evs, ValidEvent (statics σ) ev := by
@@ -1095,10 +1137,23 @@ theorem readAll_quiet (env : Env) (hq : Quiet env) (i : Nat) (es : List Entry) :
 theorem waitEvent_quiet (env : Env) (hq : Quiet env) (σ : PollState) (timeout : Nat) :
     (waitEvent env σ timeout).mods = σ.mods := (waitEvent_quiet' env hq σ timeout).1
 
-theorem prologue_quiet (c : Consts) (env : Env) (hq : Quiet env) (i : Nat) (σ : PollState) :
-    (prologue c env σ).σ.mods = σ.mods ∧ startsOf (prologue c env σ).evs i = [] := by
+theorem lateAll_quiet (env : Env) (hq : Quiet env) (i : Nat) (is : List Nat) : ∀ σ evs,
+    (lateAll env is σ evs).σ.mods = σ.mods ∧ startsOf (lateAll env is σ evs).evs i = startsOf evs i := by
+  induction is with
+  | nil => intro σ evs; exact ⟨rfl, rfl⟩
+  | cons j is ih =>
+    intro σ evs
+    have hmods : (call env σ j .write).σ.mods = σ.mods := runCall_mods env hq (noteRead σ j .write)
+    have hst : startsOf (evs ++ [(call env σ j .write).ev]) i = startsOf evs i :=
+      startsOf_snoc_other evs _ i (by simp [call])
+    simp only [lateAll]
+    obtain ⟨a, b⟩ := ih (call env σ j .write).σ (evs ++ [(call env σ j .write).ev])
+    exact ⟨by rw [a, hmods], by rw [b, hst]⟩
+
+theorem startupRound_quiet (c : Consts) (env : Env) (hq : Quiet env) (i : Nat) (σ : PollState) :
+    (startupRound c env σ).σ.mods = σ.mods ∧ startsOf (startupRound c env σ).evs i = [] := by
   obtain ⟨a1, b1⟩ := initAll_quiet env hq i (List.range σ.mods.length) σ []
-  unfold prologue
+  unfold startupRound
   simp only
   split
   · exact ⟨by rw [waitEvent_quiet env hq, a1], b1⟩
@@ -1107,6 +1162,16 @@ theorem prologue_quiet (c : Consts) (env : Env) (hq : Quiet env) (i : Nat) (σ :
     split
     · exact ⟨by rw [waitEvent_quiet env hq, a2, a1], by rw [b2, b1]; rfl⟩
     · exact ⟨by rw [a2, a1], by rw [b2, b1]; rfl⟩
+
+/-- the whole prologue — start-up round and the configured values once more — makes no main poll and leaves the
+bookkeeping alone -/
+theorem prologue_quiet (c : Consts) (env : Env) (hq : Quiet env) (i : Nat) (σ : PollState) :
+    (prologue c env σ).σ.mods = σ.mods ∧ startsOf (prologue c env σ).evs i = [] := by
+  obtain ⟨a1, b1⟩ := startupRound_quiet c env hq i σ
+  obtain ⟨a2, b2⟩ := lateAll_quiet env hq i (List.range (startupRound c env σ).σ.mods.length)
+    (startupRound c env σ).σ (startupRound c env σ).evs
+  unfold prologue
+  exact ⟨by rw [a2, a1], by rw [b2, b1]⟩
 
 end Frappy.Poller
 
